@@ -195,6 +195,11 @@ func c20CheckTree(src string, ns []Node, defined map[string]bool) (vs []ev.V) {
 				if strings.HasPrefix(a, "$(") && strings.HasSuffix(a, ")") && defined[a[2:len(a)-1]] {
 					add("tree:macro-ref-left", "argument %q is an unexpanded reference to a macro defined earlier in the file", a)
 				}
+				for name := range defined {
+					if strings.Contains(a, "$("+name+")") && a != "$("+name+")" {
+						add("tree:macro-ref-left:in-string", "argument %q still holds a reference to macro %q, which is defined in the first line of the file", a, name)
+					}
+				}
 			}
 			walk(n.Children, depth+1)
 		}
@@ -253,7 +258,7 @@ type c20Doc struct {
 
 var (
 	c20Names   = []string{"a", "b", "hostname", "tls", "deliver_to", "x.y", "k-1", "_u", "имя", "9bad", "a{", "import", "q"}
-	c20Macros  = []string{"m1", "m2", "m3", "undefined"}
+	c20Macros  = []string{"m1", "m2", "m3", "m-4", "m.5", "\u043c6", "undefined"}
 	c20Snips   = []string{"s1", "s2", "s3"}
 	c20BareArg = []string{"x", "off", "tcp://0.0.0.0:25", "1", "=", "a=b", "é", "&ref", "$(", ")", "{env:", "{env:VERIF_E1}", "{env:VERIF_E2}", "{env:VERIF_E3}", "{env:NOPE}",
 		"pre{env:VERIF_E1}post", "\\", "z\\", "#c", "(p)", "$", "$()", "{", "}", "\"", "a\"b"}
@@ -333,7 +338,7 @@ func (g *c20Gen) item(depth int) {
 			g.b.WriteString(ind + "}\n")
 		}
 	case k == 7: // macro definition
-		g.b.WriteString(ind + "$(" + g.pick("mdef", c20Macros[:3]) + ") =")
+		g.b.WriteString(ind + "$(" + g.pick("mdef", c20Macros[:6]) + ") =")
 		g.args()
 		g.b.WriteString("\n")
 	case k == 8: // snippet definition
@@ -378,6 +383,24 @@ func c20GenDoc(t *rapid.T) c20Doc {
 		}
 	case 1: // raw bytes
 		g.b.WriteString(rapid.String().Draw(t, "raw"))
+	case 4: // a macro defined in the first line and referenced in every way further down
+		name := g.pick("mdef1", c20Macros[:6])
+		g.b.WriteString("$(" + name + ") = " + g.pick("mval", []string{"value", "v1 v2", "\"quoted value\"", "a.b-c"}) + "\n")
+		for i, n := 0, g.n("nrefs", 1, 4); i < n; i++ {
+			switch g.n("refkind", 0, 4) {
+			case 0:
+				g.b.WriteString("d" + fmt.Sprint(i) + " $(" + name + ")\n")
+			case 1:
+				g.b.WriteString("d" + fmt.Sprint(i) + " pre$(" + name + ")post\n")
+			case 2:
+				g.b.WriteString("d" + fmt.Sprint(i) + " \"x $(" + name + ") y\"\n")
+			case 3:
+				g.b.WriteString("blk" + fmt.Sprint(i) + " {\n  inner /$(" + name + ")/file.pem other\n}\n")
+			default:
+				g.b.WriteString("d" + fmt.Sprint(i) + " user@$(" + name + ") $(" + name + ")\n")
+			}
+		}
+		g.items(0)
 	case 2, 3: // snippets importing each other, then used
 		for i, n := 0, g.n("nsnips", 1, 3); i < n; i++ {
 			g.b.WriteString("(" + c20Snips[i] + ") {\n")
